@@ -10,11 +10,13 @@
 package main
 
 import (
+	"encoding/json"
 	"errors"
 	"fmt"
 	"math/rand"
 	"os"
 	"sort"
+	"strings"
 
 	"github.com/onflow/cadence/common"
 	cdcerrors "github.com/onflow/cadence/errors"
@@ -45,11 +47,74 @@ type Index struct {
 }
 
 type Program struct {
-	Name   string
-	Kind   string // tx | script
-	Setup  []string
-	Src    string
-	Signer byte
+	Name         string
+	Kind         string // tx | script
+	Setup        []string
+	Src          string
+	Signers      []common.Address // default: account 0x2
+	SetupSigners []common.Address // default: account 0x2
+	Clean        string           // expected outcome class of the clean run ("" = ok)
+}
+
+func (p Program) signers() []common.Address {
+	if p.Signers != nil {
+		return p.Signers
+	}
+	return []common.Address{host.Addr(2)}
+}
+
+// modelPrograms turns transactions of Storage.tla behaviours into corpus programs: the chosen
+// transaction is the program, the transactions before it are its setup.
+func modelPrograms(path string, max int, rng *rand.Rand) []Program {
+	var ps []Program
+	_ = util.ReadLines(path, func(line []byte) error {
+		if len(ps) >= max {
+			return nil
+		}
+		var b storagedrv.Beh
+		if err := json.Unmarshal(line, &b); err != nil {
+			return err
+		}
+		var txs []string
+		var fails []bool
+		var cur []storagedrv.Step
+		for _, s := range b.Steps {
+			if s.Op == "begin" {
+				cur = nil
+				continue
+			}
+			res := storagedrv.ResString(s)
+			ends := s.Op == "commit" || s.Op == "abort" || strings.HasPrefix(res, "err:")
+			if s.Op != "commit" {
+				cur = append(cur, s)
+			}
+			if ends {
+				txs = append(txs, storagedrv.Render(cur))
+				fails = append(fails, s.Op != "commit")
+			}
+		}
+		var okIdx []int
+		for i, f := range fails {
+			if !f {
+				okIdx = append(okIdx, i)
+			}
+		}
+		if len(okIdx) == 0 {
+			return nil
+		}
+		k := okIdx[rng.Intn(len(okIdx))]
+		var setup []string
+		for i := 0; i < k; i++ {
+			if !fails[i] {
+				setup = append(setup, txs[i])
+			}
+		}
+		ps = append(ps, Program{Name: fmt.Sprintf("storage-model-h%d-t%d", b.ID, k), Kind: "tx", Setup: setup, Src: txs[k],
+			Signers:      []common.Address{storagedrv.Accts["A1"], storagedrv.Accts["A2"]},
+			SetupSigners: []common.Address{storagedrv.Accts["A1"], storagedrv.Accts["A2"]}})
+		return nil
+	})
+	return ps
 }
 
 const eventsContract = `
@@ -182,6 +247,25 @@ transaction { prepare(a: auth(Storage) &Account) {
   a.storage.save(<- rs, to: /storage/rs)
   let b = a.storage.borrow<&[T.R]>(from: /storage/rs)!
   log(b[3].id) } }`},
+		{Name: "two-fresh-accounts", Kind: "tx", Signers: []common.Address{host.Addr(5), host.Addr(6)}, Src: `import T from 0x1
+transaction { prepare(a: auth(Storage) &Account, b: auth(Storage) &Account) {
+  a.storage.save(T.S(id: 1), to: /storage/s)
+  b.storage.save(<- T.mkR(id: 2), to: /storage/r) } }`},
+		{Name: "three-fresh-accounts", Kind: "tx", Signers: []common.Address{host.Addr(7), host.Addr(8), host.Addr(9)}, Src: `
+transaction { prepare(a: auth(Storage) &Account, b: auth(Storage) &Account, c: auth(Storage) &Account) {
+  c.storage.save("c", to: /storage/x)
+  a.storage.save([1, 2, 3], to: /storage/x)
+  b.storage.save({"k": 1}, to: /storage/x) } }`},
+		{Name: "fresh-and-existing-accounts", Kind: "tx", Setup: setupStore, Signers: []common.Address{host.Addr(2), host.Addr(5), host.Addr(6)}, Src: `import T from 0x1
+transaction { prepare(a: auth(Storage) &Account, b: auth(Storage) &Account, c: auth(Storage) &Account) {
+  let r <- a.storage.load<@T.R>(from: /storage/r)!
+  c.storage.save(<- r, to: /storage/r)
+  b.storage.save(a.storage.copy<[Int]>(from: /storage/arr)!, to: /storage/arr)
+  let xs: [String] = []
+  var i = 0
+  while i < 120 { xs.append("a fairly long string element to force several slabs ".concat(i.toString())); i = i + 1 }
+  b.storage.save(xs, to: /storage/big)
+  c.storage.save(xs, to: /storage/big) } }`},
 		{Name: "args", Kind: "script", Src: `access(all) fun main(): Int { let xs = [1, 2, 3]; var s = 0; for x in xs { s = s + x }; return s }`},
 	}
 	return ps
@@ -197,7 +281,11 @@ func buildWorld(p Program) *host.World {
 		util.Die("deploy E: %v", err)
 	}
 	for _, s := range p.Setup {
-		r := w.Tx(s, []common.Address{host.Addr(2)}, false)
+		ss := p.SetupSigners
+		if ss == nil {
+			ss = []common.Address{host.Addr(2)}
+		}
+		r := w.Tx(s, ss, false)
 		if r.Err != nil {
 			util.Die("setup of %s: %v", p.Name, r.Err)
 		}
@@ -229,7 +317,7 @@ func run(p Program, engine string, faults []faultSpec) (host.Result, *host.World
 	if p.Kind == "script" {
 		r = w.ScriptE(p.Src, engine)
 	} else {
-		r = w.TxE(p.Src, []common.Address{host.Addr(2)}, engine)
+		r = w.TxE(p.Src, p.signers(), engine)
 	}
 	return r, w
 }
@@ -306,7 +394,15 @@ func main() {
 		ix.Write(Index{First: first + 1, Last: pos, Program: p.Name, Engine: engine, Faults: fs, Class: r.Class, Err: es, Src: p.Src})
 		nruns++
 	}
-	for pi, p := range corpus() {
+	progs := corpus()
+	if len(os.Args) > 3 {
+		n := 12
+		if thorough {
+			n = 120
+		}
+		progs = append(progs, modelPrograms(os.Args[3], n, rng)...)
+	}
+	for pi, p := range progs {
 		engine := host.Engines[(pi+int(util.Seed()))%2] // interp / vm alternate; vmopt in thorough
 		engines := []string{engine}
 		if thorough {
@@ -368,5 +464,5 @@ func main() {
 			}
 		}
 	}
-	ix.Write(map[string]any{"summary": true, "executions": nruns, "events": pos, "crash_points": len(points), "programs": len(corpus())})
+	ix.Write(map[string]any{"summary": true, "executions": nruns, "events": pos, "crash_points": len(points), "programs": len(progs)})
 }
